@@ -16,7 +16,8 @@ import (
 // attributes, laid out by dagre in one go; the part after '#' selects the shape the evaluation is about.
 type sizeSpec struct {
 	label, font, style, icon string
-	w, h                     int // 0 = unset
+	w, h                     int    // 0 = unset
+	via                      string // "" = width/height written on the shape, "class" = supplied through a class
 }
 
 func (s sizeSpec) String() string {
@@ -26,14 +27,21 @@ func (s sizeSpec) String() string {
 		}
 		return strconv.Itoa(v)
 	}
-	return fmt.Sprintf("l=%s;f=%s;s=%s;i=%s;w=%s;h=%s", s.label, s.font, s.style, s.icon, d(s.w), d(s.h))
+	r := fmt.Sprintf("l=%s;f=%s;s=%s;i=%s;w=%s;h=%s", s.label, s.font, s.style, s.icon, d(s.w), d(s.h))
+	if s.via != "" {
+		r += ";v=" + s.via
+	}
+	return r
 }
 
 func parseSizeSpec(in string) (sizeSpec, error) {
 	var s sizeSpec
 	p := strings.Split(in, ";")
-	if len(p) != 6 {
+	if len(p) != 6 && len(p) != 7 {
 		return s, fmt.Errorf("bad size spec %q", in)
+	}
+	if len(p) == 7 {
+		s.via = strings.TrimPrefix(p[6], "v=")
 	}
 	get := func(x, k string) string { return strings.TrimPrefix(x, k+"=") }
 	s.label, s.font, s.style, s.icon = get(p[0], "l"), get(p[1], "f"), get(p[2], "s"), get(p[3], "i")
@@ -43,6 +51,7 @@ func parseSizeSpec(in string) (sizeSpec, error) {
 }
 
 var sizeLabels = map[string]string{
+	"empty": `""`,
 	"x":     `x`,
 	"c12":   `twelve chars`,
 	"c60":   `a label of sixty characters that goes on and on for a while.`,
@@ -70,14 +79,27 @@ func objName(sh string) string { return "s_" + strings.ReplaceAll(sh, "-", "_") 
 // has tells whether the program of this spec contains the shape: the compiler rejects unequal explicit
 // width/height on square and circle, so those two are left out of such programs.
 func (s sizeSpec) has(sh string) bool {
-	if (sh == d2target.ShapeSquare || sh == d2target.ShapeCircle) && s.w > 0 && s.h > 0 && s.w != s.h {
-		return false
+	if (sh == d2target.ShapeSquare || sh == d2target.ShapeCircle) && s.w > 0 && s.h > 0 && s.w != s.h && s.via != "class" {
+		return false // (the compiler's check looks at keys written on the shape itself; through a class they are accepted)
+	}
+	if s.label == "empty" && sh == d2target.ShapeText {
+		return false // "shape text must have a non-empty label"
 	}
 	return true
 }
 
 func (s sizeSpec) source() string {
 	var b strings.Builder
+	if s.via == "class" {
+		var dim []string
+		if s.w > 0 {
+			dim = append(dim, fmt.Sprintf("width: %d", s.w))
+		}
+		if s.h > 0 {
+			dim = append(dim, fmt.Sprintf("height: %d", s.h))
+		}
+		fmt.Fprintf(&b, "classes: {\n  dim: {\n    %s\n  }\n}\n", strings.Join(dim, "\n    "))
+	}
 	for _, sh := range dslShapes {
 		if !s.has(sh) {
 			continue
@@ -115,11 +137,15 @@ func (s sizeSpec) source() string {
 		case s.icon == "out":
 			attrs = append(attrs, "icon: "+iconURL, "icon.near: outside-top-left")
 		}
-		if s.w > 0 {
-			attrs = append(attrs, fmt.Sprintf("width: %d", s.w))
-		}
-		if s.h > 0 {
-			attrs = append(attrs, fmt.Sprintf("height: %d", s.h))
+		if s.via == "class" {
+			attrs = append(attrs, "class: dim")
+		} else {
+			if s.w > 0 {
+				attrs = append(attrs, fmt.Sprintf("width: %d", s.w))
+			}
+			if s.h > 0 {
+				attrs = append(attrs, fmt.Sprintf("height: %d", s.h))
+			}
 		}
 		if body != "" {
 			attrs = append(attrs, body)
@@ -260,7 +286,7 @@ func init() {
 	eng.Register(&eng.Check{
 		ID: "C21", Level: "exploration", HangBound: 120 * time.Second,
 		QuickBudget: 118 * time.Second, ThoroughBudget: 24 * time.Minute,
-		Rule: "every attribute combination (label in {1 char, 12 chars, 60 chars, 3 lines, 8 short lines, 9-line block, CJK, emoji (thorough)} x font-size x bold/italic x icon in {none, inside, outside-top-left} x (width,height) in D^2, D per phase) is rendered to a D2 program holding one root-level leaf of each of the 23 leaf shape keywords with those attributes, laid out through d2lib.Compile with dagre; each (combination, shape) pair is one evaluation on the exported shape; non-trivial = both dimensions explicit, or automatic size with an inside label",
+		Rule: "every attribute combination (label in {1 char, 12 chars, 60 chars, 3 lines, 8 short lines, 9-line block, CJK, emoji (thorough)} x font-size x bold/italic x icon in {none, inside, outside-top-left} x (width,height) in D^2, D per phase, written on the shape or supplied through a class; plus the empty label) is rendered to a D2 program holding one root-level leaf of each of the 23 leaf shape keywords with those attributes, laid out through d2lib.Compile with dagre; each (combination, shape) pair is one evaluation on the exported shape; non-trivial = both dimensions explicit, or automatic size with an inside label",
 		Assumptions: []string{
 			"leaf shapes at the root of a dagre-laid-out board only (no grid, no sequence diagram, no containers, no near)",
 			"when only one of width/height is given the statement is silent: such cases are laid out but only checked for errors and positive size",
@@ -271,6 +297,7 @@ func init() {
 		},
 		Oracles: map[string]eng.Oracle{"size": c21Oracle},
 		Run: func(w *eng.W) {
+			via := ""
 			run := func(name string, labels, fonts, styles, icons []string, dims [][2]int) {
 				w.Phase(name, func() {
 					for _, l := range labels {
@@ -281,7 +308,7 @@ func init() {
 										if !w.Mine() { // shard by program: its 23 evaluations share one layout
 											continue
 										}
-										sp := sizeSpec{l, f, st, ic, d[0], d[1]}
+										sp := sizeSpec{l, f, st, ic, d[0], d[1], via}
 										for _, sh := range dslShapes {
 											if sp.has(sh) {
 												w.EvalMine("size", sp.String()+"#"+sh)
@@ -311,6 +338,11 @@ func init() {
 				run("automatic size: labels(6) x font{-,40} x {plain,bolditalic} x icons(3)", ql, qf, qs, qi, [][2]int{{0, 0}})
 				run("explicit size {(1,1),(37,200),(200,37),(1000,1000)}: same attribute grid", ql, qf, qs, qi, [][2]int{{1, 1}, {37, 200}, {200, 37}, {1000, 1000}})
 				run("one-sided size {(37,-),(-,200)}: same attribute grid", ql, qf, qs, qi, [][2]int{{37, 0}, {0, 200}})
+				el := []string{"empty", "x", "lines"}
+				run("empty label: explicit {(1,1),(37,200),(200,37),(1000,1000)} x icons(3)", []string{"empty"}, qf, []string{"plain"}, qi, [][2]int{{1, 1}, {37, 200}, {200, 37}, {1000, 1000}, {0, 0}})
+				via = "class"
+				run("size through a class {(1,1),(37,200),(200,37),(130,130)}: labels{empty,x,lines} x icons(3)", el, []string{"-"}, []string{"plain"}, qi, [][2]int{{1, 1}, {37, 200}, {200, 37}, {130, 130}})
+				via = ""
 			} else {
 				tf := []string{"-", "8", "32", "100"}
 				ts := []string{"plain", "bold", "italic", "bolditalic"}
@@ -323,6 +355,10 @@ func init() {
 				run("automatic size: labels(8) x font{-,8,32,100} x styles(4) x icons(3)", sizeLabelOrder, tf, ts, ti, [][2]int{{0, 0}})
 				run("explicit size {1,37,200,1000}^2: same attribute grid", sizeLabelOrder, tf, ts, ti, sq(vals))
 				run("one-sided size {1,37,200,1000} on either axis: same attribute grid", sizeLabelOrder, tf, ts, ti, oneSided)
+				run("empty label: explicit {1,37,200,1000}^2 and automatic", []string{"empty"}, tf, ts, ti, append(sq(vals), [2]int{0, 0}))
+				via = "class"
+				run("size through a class {1,37,200,1000}^2: labels(8+empty) x icons(3)", append([]string{"empty"}, sizeLabelOrder...), []string{"-", "32"}, []string{"plain"}, ti, sq(vals))
+				via = ""
 			}
 			w.Count("dagre_calls", int64(dagreCalls))
 		},
